@@ -567,6 +567,12 @@ func (c *Chain) genMessage(t *rapid.T, sender int) (*shmsg.Message, string) {
 		"cfg", "cfg", "cfg", "cfg", "cfg", "seen", "seen", "seen", "checkin", "checkin", "checkin",
 		"result", "result", "result", "result", "eval", "commit", "acc", "apol", "empty",
 	}).Draw(t, "kind")
+	if c.Focus == "dkg" {
+		kind = rapid.SampledFrom([]string{
+			"eval", "eval", "eval", "eval", "eval", "eval", "commit", "commit", "acc", "acc", "acc", "apol", "apol", "apol",
+			"result", "result", "result", "cfg", "cfg", "checkin", "seen",
+		}).Draw(t, "kindD")
+	}
 	if c.Focus == "validators" {
 		kind = rapid.SampledFrom([]string{
 			"cfg", "cfg", "cfg", "cfg", "seen", "seen", "seen", "seen", "seen", "checkin", "checkin", "checkin", "checkin", "checkin", "checkin",
@@ -642,6 +648,17 @@ func (c *Chain) genMessage(t *rapid.T, sender int) (*shmsg.Message, string) {
 	case "result":
 		eon := pickEon(t, c)
 		ok := rapid.Bool().Draw(t, "success")
+		if len(c.M.RestartedEons) > 0 && rapid.IntRange(0, 2).Draw(t, "lateVote") == 0 {
+			// a late report for an eon that was already restarted (its keyper set now has two eons)
+			var re []uint64
+			for e := range c.M.RestartedEons {
+				re = append(re, e)
+			}
+			sort.Slice(re, func(i, j int) bool { return re[i] < re[j] })
+			eon = rapid.SampledFrom(re).Draw(t, "restartedEon")
+			ok = rapid.IntRange(0, 3).Draw(t, "lateOK") == 0
+			return shmsg.NewDKGResult(eon, ok), fmt.Sprintf("result(%d,%v)", eon, ok)
+		}
 		if d := c.M.DKGs[eon]; d != nil && rapid.IntRange(0, 2).Draw(t, "aimTally") > 0 {
 			// aim at tallies: fill one outcome up to the threshold, then the other
 			nT, nF := 0, 0
